@@ -209,6 +209,8 @@ def C12(tier, seed):
                                             edge_columns={"overlap": "real"}, edge_name_map={"iou": "overlap"})),
         ("sparse_custom_properties", dict(ids=[3, 1], M=1, columns=dict(cols, c="int", u="real", v="real"),
                                           name_map=dict(nm, c="c", uv=["u", "v"]), sparse=("c", "v"))),
+        # the components of a combined property have different dtypes (an integer plane index next to real coordinates)
+        ("mixed_dtype_position", dict(ids=[3, 1], M=1, columns={"t": "int", "y": "int", "x": "real"}, name_map=nm)),
         ("duplicate_ids", dict(ids=[3, 3, 7], M=1, columns=cols, name_map=nm)),
         ("no_time_mapping", dict(ids=[3, 1], M=1, columns=cols, name_map={"pos": ["y", "x"]},
                                  expect_missing_required=True)),
@@ -242,6 +244,9 @@ def C12(tier, seed):
         ("no_id_mapping", dict(ids=[3, 1], columns=ccols, name_map={k: v for k, v in cnm.items() if k != "id"},
                                expect_missing_required=True)),
     ]
+    FB12 = ("C12.malformed_source_rejected_with_ValueError", "C12.wellformed_source_accepted",
+            "C12.nodes_are_the_source_ids", "C12.edges_are_the_source_links",
+            "C12.mapped_values_equal_source_in_mapped_order", "C12.time_and_position_readable")
     runs = []
     for name, cfg in G:
         tags = ("malformed",) if name == "duplicate_ids" else (
@@ -249,13 +254,13 @@ def C12(tier, seed):
         runs.append(Run("import:geff:" + name, importer.geff_harness, cfg, importer.geff_replay, tags,
                         "store with row ids %s, every set of <= %d links with endpoints over the row ids and one unknown "
                         "id (duplicates, self links, dangling links included); every cell of every property column an "
-                        "unconstrained integer / real" % (cfg["ids"], cfg.get("M", 2))))
-    for name, cfg in ([] if err else Cv):
+                        "unconstrained integer / real" % (cfg["ids"], cfg.get("M", 2)), fallback_obligations=FB12))
+    for name, cfg in Cv:  # (run even if the model conformance failed: a violation found is replayed on real pandas)
         tags = ("malformed",) if (name.startswith("duplicate") or cfg.get("expect_missing_required")) else (
             "imported", "malformed")
         runs.append(Run("import:csv:" + name, importer.csv_harness, cfg, importer.csv_replay, tags,
                         "table with row ids %s, every row's parent over {each row id, an unknown id, missing, -1 / ''}; "
-                        "every other cell an unconstrained integer / real" % (cfg["ids"],)))
+                        "every other cell an unconstrained integer / real" % (cfg["ids"],), fallback_obligations=FB12))
     code = run_property("C12", tier, runs, explanation=R.EXPL, seed=seed, extra=dict(
         dataframe_model_conformance=model_note), assumptions=[
         "row ids, link endpoints, column names and the key mapping are concrete per run or decided by engine forks over "
@@ -274,7 +279,7 @@ def C12(tier, seed):
                "infer_dtype_from_array -> declared dtype of the symbolic column"])
     if err and code == 0:
         print("INCONCLUSIVE property=C12: the DataFrame model disagrees with real pandas on the current load_source; the "
-              "CSV route was not checked")
+              "CSV route's passes are not believed")
         return 3
     return code
 
@@ -285,7 +290,9 @@ def C14(tier, seed):
 
     n = 3 if tier == "quick" else 4
     variants = [("", {}), (":per_axis_pos", dict(multi_pos=True)), (":3D", dict(shape=(3, 1, 1, 1))),
-                (":scale_given", dict(scale="given")), (":descending_node_order", dict(node_order="reversed"))]
+                (":scale_given", dict(scale="given")), (":descending_node_order", dict(node_order="reversed")),
+                # first coordinate a Python int on every node (plane index): exported columns of different dtypes
+                (":integer_first_axis", dict(int_first_axis=True))]
     runs = []
     for route, h in (("geff", roundtrip.geff_harness), ("csv", roundtrip.csv_harness)):
         for name, extra in variants:
@@ -297,7 +304,9 @@ def C14(tier, seed):
             runs.append(Run(f"roundtrip:{route}{name}:N={m}", h, cfg, roundtrip.replay, ("roundtrip",),
                             f"every valid solution on <= {m} node slots (forest shape, times, track and lineage ids "
                             f"symbolic; ids 1..{m + 1}), coordinates arbitrary reals; full export, then import with the "
-                            f"key mapping that corresponds to what the exporter wrote"))
+                            f"key mapping that corresponds to what the exporter wrote",
+                            fallback_obligations=("C14.reimport_accepted", "C14.same_nodes", "C14.same_edges",
+                                                  "C14.same_times", "C14.same_positions", "C14.same_track_ids")))
     return run_property("C14", tier, runs, explanation=R.EXPL, seed=seed, assumptions=EXPORT_ASSUME + [
         "IDEAL STORE between the two halves: geff.write followed by read_to_memory returns the node ids, edges and one "
         "value array per attribute of the written graph (absent attribute = missing); DataFrame.to_csv followed by "
